@@ -62,6 +62,12 @@ def run(ctx):
         units, space, nfun = vcgen.emit_units(d, "L1,L5", 64, noalign=1, corpus=corpus, stride=8)
     else:
         units, space, nfun = vcgen.emit_units(d, "L1,L5", 64, noalign=0, corpus=corpus, stride=1)
+    # boundary integers of the serialised form (constant n / m of 253..257): always, as a unit of its own
+    db = os.path.join(scratch, "pb")
+    os.makedirs(db)
+    ub, _, nb = vcgen.emit_units(db, "LB", 1)
+    units += ub
+    nfun += nb
     jobs = []
     for u in units:
         is_corpus = os.path.basename(u).startswith("c")
@@ -75,7 +81,7 @@ def run(ctx):
         # compat variants need units without declared alignments
         d2 = os.path.join(scratch, "p1")
         os.makedirs(d2)
-        u2, _, _ = vcgen.emit_units(d2, "L1,L5", 64, noalign=1, stride=2)
+        u2, _, _ = vcgen.emit_units(d2, "L1,L5,LB", 64, noalign=1, stride=2)
         jobs = [j for j in jobs if not j["variant"].startswith("compat")]
         for u in u2:
             for variant in ("compat0411", "compat0415"):
